@@ -246,33 +246,39 @@ func c15Convert(c *Ctx) {
 			h := cl.Call.StaticCallee()
 			// inside the helper: Atoi(<slice param>[<pos param>]) guarded by pos < len(slice)
 			posIdx, guard := -1, false
-			EachInstr(h, func(i2 ssa.Instruction) {
-				at, ok := i2.(*ssa.Call)
-				if !ok || !MatchCC(&at.Call, Spec{"strconv", "", "Atoi"}) {
-					return
-				}
-				u, ok := at.Call.Args[0].(*ssa.UnOp)
-				if !ok {
-					return
-				}
-				ia, ok := u.X.(*ssa.IndexAddr)
-				if !ok {
-					return
-				}
-				for i, p := range h.Params {
-					if ssa.Value(p) == ia.Index {
-						posIdx = i
+			// the element <slice param>[<pos param>] of the helper that reaches strconv.Atoi (in the helper or one call further)
+			for _, hg := range FindFuncs(h, 1, func(*ssa.Function) bool { return true }) {
+				EachInstr(hg, func(i2 ssa.Instruction) {
+					at, ok := i2.(*ssa.Call)
+					if !ok || !MatchCC(&at.Call, Spec{"strconv", "", "Atoi"}) {
+						return
 					}
-				}
-				for _, f := range CmpFactsAt(at) {
-					f = f.Canon()
-					if f.Op == token.LSS && f.X == ia.Index {
-						if lc, ok := f.Y.(*ssa.Call); ok && IsBuiltinCall(lc, "len") {
-							guard = true
+					SliceAny(at.Call.Args[0], func(v ssa.Value) bool {
+						u, ok := v.(*ssa.UnOp)
+						if !ok {
+							return false
 						}
-					}
-				}
-			})
+						ia, ok := u.X.(*ssa.IndexAddr)
+						if !ok || ia.Parent() != h {
+							return false
+						}
+						for i, p := range h.Params {
+							if ssa.Value(p) == ia.Index {
+								posIdx = i
+							}
+						}
+						for _, f := range CmpFactsAt(u) {
+							f = f.Canon()
+							if f.Op == token.LSS && f.X == ia.Index {
+								if lc, ok := f.Y.(*ssa.Call); ok && IsBuiltinCall(lc, "len") {
+									guard = true
+								}
+							}
+						}
+						return true
+					})
+				})
+			}
 			if posIdx < 0 || posIdx >= len(cl.Call.Args) {
 				return
 			}
